@@ -1079,5 +1079,47 @@ pub fn all() -> Vec<Witness> {
             case: case_of(main, vec![], b"", vec![]),
         });
     }
+    // ---- a handler's RETURN took the GOSUB of an interrupted subprogram ----
+    {
+        let mut b = B(0);
+        let main = vec![
+            b.s(StmtKind::OnErrorGoto("H1".into())),
+            b.s(StmtKind::CallSub {
+                name: "S2".into(),
+                args: vec![int(1)],
+            }),
+            b.trace("back in main"),
+            b.s(StmtKind::End),
+            b.s(StmtKind::Label("H1".into())),
+            b.s(StmtKind::Return(None)),
+        ];
+        let body = vec![
+            b.s(StmtKind::Gosub("SB1".into())),
+            b.trace("in the sub"),
+            b.s(StmtKind::ExitProc),
+            b.s(StmtKind::Label("SB1".into())),
+            b.s(StmtKind::Fail(FailKind::DivZero)),
+            b.s(StmtKind::Return(None)),
+        ];
+        out.push(Witness {
+            name: "fixed-handler-return-took-the-gosub-of-a-subprogram",
+            property: "C05",
+            class: "ControlFlow",
+            key: "",
+            what: "an error inside a SUB that had a GOSUB pending, a handler that executes RETURN: the RETURN took the SUB's GOSUB and jumped into the SUB's code with the handler's context (context stack off by one, panic 'Not collecting arguments!') instead of raising RETURN without GOSUB",
+            case: case_of(
+                main,
+                vec![Proc {
+                    name: "S2".into(),
+                    is_function: false,
+                    params: vec!["P1%".into()],
+                    body,
+                    is_static: false,
+                }],
+                b"",
+                vec![],
+            ),
+        });
+    }
     out
 }
